@@ -24,8 +24,8 @@ type runEnv struct {
 	// what the predecessors handed out (references kept to detect later modification)
 	handed [2][]any
 	// what the successor was handed
-	called int
-	input  reflect.Value // deep-copied snapshot (stream: merged chunks)
+	called  int
+	input   reflect.Value // deep-copied snapshot (stream: merged chunks)
 	chunks  int
 	mergeOK bool
 	mu      sync.Mutex
